@@ -2,6 +2,7 @@ import ShootVerif.Proofs.MapperCtor
 import ShootVerif.Proofs.MapperPairs
 import ShootVerif.Proofs.MapperCtorClosed
 import ShootVerif.Proofs.MapperNameSpec
+import ShootVerif.Props.C05
 /-!
 C15 — mapping through accessors/constructors equals plain field mapping.
 
@@ -255,6 +256,22 @@ theorem C15_refines_partial (tm : List (String × String)) (ic : Bool) (n : Stri
     canNameMatch tm ic o { name := "Set" ++ pascalS n, path := ["Set" ++ pascalS n], ty := ty, backing := pascalS n, isSet := true } =
       canNameMatch tm ic o { name := pascalS n, path := [pascalS n], ty := ty } := by
   simp [canNameMatch, Field.matchingName, hn, ho, hos]
+
+/-- the constructor matching of one type sees nothing of the type processed before it (seeded change C15-14 adds an index of
+    mapper methods that is filled in `parseMapper` - which returns early for a type without a mapper - and never reset): over
+    the table of `mapper.Generator` fields and their assignment sites REGENERATED from /repo on every run, every field is either
+    one of the four that legitimately outlive a type or has a plain assignment in a function `MakeData` runs for EVERY type
+    (`mappingFuncList` in `loadMorePkgs`, the parameter lists in `MakeData`, …). A new field - of whatever type, a map or slice
+    in particular - that is only written in `parseMapper` is in neither list: the theorem no longer compiles. (Same tables
+    and lists as `C05_state_per_type`; the model's `plan` is a function of ONE src/dest pair and of the mapper methods of that
+    type, which is sound exactly under this statement.) -/
+theorem C15_ctor_state_per_type :
+    ((Facts.genStateFields.filter (fun f => f.1 = "internal/mapper" && f.2.1 = "Generator")).all
+        (fun f => persistentFields.contains f.2.2.1 || (perTypeResets.map (·.1)).contains f.2.2.1) = true) ∧
+    (perTypeResets.all (fun r => Facts.genStateWrites.contains ("internal/mapper", r.2, r.1, "set")) = true) ∧
+    (("mappingFuncList", "loadMorePkgs") ∈ perTypeResets ∧ ("srcCtorParams", "MakeData") ∈ perTypeResets ∧
+      ("destCtorParams", "MakeData") ∈ perTypeResets) :=
+  ⟨C05_state_per_type.1, C05_state_per_type.2.1, by decide⟩
 
 /-- refinement to C05, name-matching part for CONSTRUCTOR PARAMETERS: a parameter is matched under the raw name of its
     unexported field (`backing`), and that gives exactly what the exported twin `Pascal(name)` of the field gives — with and
